@@ -286,6 +286,10 @@ def get_used_or_defined_symbols(routine):
     with dataflow_analysis_attached(routine):
         used_or_defined_symbols = routine.body.uses_symbols | routine.body.defines_symbols
 
+        # The dataflow analysis keeps a loop variable local to its loop,
+        # but the loop still needs the declaration of that variable
+        used_or_defined_symbols |= OrderedSet(loop.variable for loop in FindNodes(ir.Loop).visit(routine.body))
+
         # We search for symbols used to define array sizes of symbols referenced
         # in the body, as well as local arrays declared in the routine.
         used_or_defined_array_shapes = [s.shape for s in used_or_defined_symbols if isinstance(s, sym.Array)]
